@@ -595,6 +595,7 @@ type Case17 struct {
 	Z     *T17         `json:"z,omitempty"` // equals: third term for transitivity
 	Share bool         `json:"share"`
 	Flip  bool         `json:"flip,omitempty"` // match: ground on the left, pattern on the right
+	Sweep bool         `json:"sweep,omitempty"` // drawn from the systematic small-pair list (c17sweep.go)
 	GC    string       `json:"gc"`             // none | dense | sparse
 	Sim   simrt.Config `json:"sim"`
 }
@@ -1214,9 +1215,20 @@ func (c17) Batch(seed uint64, wid, batch, count int, deadline time.Time, emit fu
 			break
 		}
 		emit(&Record{T: "start", Runs: i})
-		c := genCase17(newRng(seed, uint64(wid), uint64(batch), uint64(i), 17))
+		c := case17For(seed, wid, batch, i, nWorkers())
 		res := runCase17(c)
 		tick()
+		if c.Sweep {
+			rec.Counts["sweep_cases"]++
+			if i == count-2 {
+				// the batch's whole slice of the sweep has been walked
+				rec.Counts[fmt.Sprintf("sweep_full_batches_w%02d", wid)]++
+			}
+		}
+		if wid == 0 && batch == 0 && i == 0 {
+			rec.Counts["sweep_cases_in_one_full_pass"] = int64(sweepTotal())
+			rec.Counts["sweep_universe_types"] = int64(len(sweepUniverse()))
+		}
 		if i%64 == 63 {
 			runtime.GC()
 		}
@@ -1242,7 +1254,7 @@ func (c17) Batch(seed uint64, wid, batch, count int, deadline time.Time, emit fu
 			cs, _ := json.Marshal(c17CaseFile{c})
 			rf := &ReplayFile{Case: cs, TZ: tzEnv()}
 			if i > 0 && res.Viol.Kind == "gc" {
-				rf.Prefix = &Prefix{seed, wid, batch, i}
+				rf.Prefix = &Prefix{seed, wid, batch, i, nWorkers()}
 			}
 			emit(&Record{T: "viol", Viol: res.Viol, Replay: rf})
 		}
@@ -1254,7 +1266,7 @@ func (c17) Batch(seed uint64, wid, batch, count int, deadline time.Time, emit fu
 }
 
 func (c17) GenCase(seed uint64, wid, batch, i int) json.RawMessage {
-	b, _ := json.Marshal(c17CaseFile{genCase17(newRng(seed, uint64(wid), uint64(batch), uint64(i), 17))})
+	b, _ := json.Marshal(c17CaseFile{case17For(seed, wid, batch, i, nWorkers())})
 	return b
 }
 
@@ -1264,8 +1276,12 @@ func (c17) Replay(rf *ReplayFile) *Violation {
 		harnessFatal("replay case: %v", err)
 	}
 	if p := rf.Prefix; p != nil {
+		nw := p.NW
+		if nw == 0 {
+			nw = nWorkers()
+		}
 		for i := 0; i < p.Count; i++ {
-			runCase17(genCase17(newRng(p.Seed, uint64(p.Wid), uint64(p.Batch), uint64(i), 17)))
+			runCase17(case17For(p.Seed, p.Wid, p.Batch, i, nw))
 			if i%64 == 63 {
 				runtime.GC()
 			}
